@@ -66,6 +66,27 @@ func registerVerifModels(e *Engine) {
 		fr.p.nondets = append(fr.p.nondets, nondetRec{kind: "choice", val: int64(k)})
 		return k
 	})
+	own("nondetPick", func(fr *frame, fn *ssa.Function, args []value) value {
+		opts, _ := args[0].([]value)
+		if len(opts) == 0 {
+			panic(abortPath{kind: "infeasible", reason: "nondetPick of nothing"})
+		}
+		st := fr.p.st
+		sel := fr.p.nondetTerm("pick", smt.BV(8))
+		fr.p.addPC(st.BvCmp(smt.OBvUlt, sel, st.BVC(8, uint64(len(opts)))))
+		t := st.StrC(fr.concreteString(opts[len(opts)-1]))
+		for i := len(opts) - 2; i >= 0; i-- {
+			t = st.Ite(st.Eq(sel, st.BVC(8, uint64(i))), st.StrC(fr.concreteString(opts[i])), t)
+		}
+		return fromTerm(t, types.String)
+	})
+	own("verifRotateMap", func(fr *frame, fn *ssa.Function, args []value) value {
+		if m, ok := args[0].(iface).v.(*omap); ok && m != nil {
+			m.rotate = true
+		}
+		return nil
+	})
+	own("verifBound", func(fr *frame, fn *ssa.Function, args []value) value { return nil })
 	own("nondetString", func(fr *frame, fn *ssa.Function, args []value) value {
 		class := fr.concreteString(args[0])
 		st := fr.p.st
@@ -234,6 +255,11 @@ func registerStdModels(e *Engine) {
 			}
 			st := fr.p.st
 			x, y := fr.toSym(args[0], types.String).T, fr.toSym(args[1], types.String).T
+			if nx, ny := smt.LeafCount(x, 64), smt.LeafCount(y, 64); nx > 0 && ny > 0 && nx*ny <= 1024 {
+				return fromTerm(st.MapLeaves(x, func(lx *smt.Term) *smt.Term {
+					return st.MapLeaves(y, func(ly *smt.Term) *smt.Term { return st.BoolC(conc(lx.S, ly.S)) })
+				}), types.Bool)
+			}
 			if swap {
 				x, y = y, x
 			}
